@@ -82,7 +82,7 @@ def strategy(tier, sub=None):
 
 
 def budget(tier, sub=None):
-    return {"examples": 32000 if tier == "quick" else 320000, "shards": 16}
+    return {"examples": 32000 if tier == "quick" else 1000000, "shards": 16}
 
 
 def run_sim(spec):
